@@ -504,9 +504,91 @@ def gconcat_tie(ctx):
                 ctx.violation('group_concat over a nullable string column differs from sep.join of the non-missing values', {'column': col, 'sep': rq['sep']},
                               observed=real, expected=exp, key='group_concat:%r' % (rq['sep'],))
 
+def qresult_tie(ctx):
+    """the list-like QueryResult object: random sequences of len / indexing / slicing / in / index / iteration / reversed / == /
+    reverse() on results created lazily (limit, page) and eagerly (q[a:b], fetch) — real Pony == Model/QResult.lean == Python list of
+    the window, whichever call materialises the result (pickling of results belongs to C31)"""
+    rng = ctx.rng
+    reqs, reals, metas = [], [], []
+    def one_op(ids):
+        k = rng.choice(['len', 'get', 'slice', 'mem', 'index', 'iter', 'rev', 'eq', 'reverse'])
+        if k == 'get': return ['get', rng.choice([0, 0, 1, 2, 3, 7])]
+        if k == 'slice': return ['slice', rng.choice([None, 0, 1, 2, 9]), rng.choice([None, 0, 1, 2, 3, 9])]
+        if k in ('mem', 'index'): return [k, rng.choice(ids + [0, 99]) if ids else 99]
+        if k == 'eq':
+            cand = rng.choice([ids, ids[1:], ids[:1], list(reversed(ids)), []])
+            return ['eq', list(cand)]
+        return [k]
+    def apply(res, op, byid):
+        k = op[0]
+        try:
+            if k == 'len': return len(res)
+            if k == 'get': return {'item': res[op[1]].id}
+            if k == 'slice': return [x.id for x in res[op[1]:op[2]]]
+            if k == 'mem': return (byid[op[1]] in res) if op[1] in byid else False
+            if k == 'index': return res.index(byid[op[1]]) if op[1] in byid else {'error': 'ValueError'}
+            if k == 'iter': return [x.id for x in res]
+            if k == 'rev': return [x.id for x in reversed(res)]
+            if k == 'eq': return res == [byid[i] for i in op[1]]
+            if k == 'reverse': return res.reverse()
+        except IndexError: return {'error': 'IndexError'}
+        except ValueError: return {'error': 'ValueError'}
+    def py_apply(xs, op):
+        k = op[0]
+        try:
+            if k == 'len': return len(xs)
+            if k == 'get': return {'item': xs[op[1]]}
+            if k == 'slice': return xs[op[1]:op[2]]
+            if k == 'mem': return op[1] in xs
+            if k == 'index': return xs.index(op[1])
+            if k == 'iter': return list(xs)
+            if k == 'rev': return list(reversed(xs))
+            if k == 'eq': return xs == op[1]
+            if k == 'reverse': return xs.reverse()
+        except IndexError: return {'error': 'IndexError'}
+        except ValueError: return {'error': 'ValueError'}
+    for rd in range(ctx.scale(8, 60)):
+        n = rng.choice([0, 1, 3, 6, 10])
+        db, G, H = build_db(rng, n)
+        with db_session:
+            q = select(g for g in G).order_by(G.id)
+            ids = [g.id for g in q[:]]
+            byid = {g.id: g for g in G.select()}
+            for _ in range(ctx.scale(10, 25)):
+                form = rng.choice(['limit', 'limit', 'page', 'slice', 'fetch'])
+                if form == 'page':
+                    pn = rng.choice([1, 2, 3]); ps = rng.choice([1, 2, 3]); l, o = ps, (pn - 1) * ps
+                    mk = lambda: q.page(pn, ps); lazy = True; desc_ = 'q.page(%d, %d)' % (pn, ps)
+                elif form == 'slice':
+                    a = rng.choice([None, 0, 1, 2, 4]); b = rng.choice([None, 1, 2, 3, 6, 20])
+                    if b is not None and (a or 0) >= b: l, o = 0, None
+                    elif b is None: l, o = None, (a or None)
+                    else: l, o = b - (a or 0), (a or 0)
+                    mk = lambda: q[a:b]; lazy = False; desc_ = 'q[%r:%r]' % (a, b)
+                else:
+                    l = rng.choice([None, 0, 1, 2, 3, 7]); o = rng.choice([None, 0, 1, 2, 5])
+                    mk = (lambda: q.limit(l, offset=o)) if form == 'limit' else (lambda: q.fetch(l, offset=o))
+                    lazy = form == 'limit'; desc_ = 'q.%s(%r, offset=%r)' % (form, l, o)
+                ops = [one_op(ids) for _ in range(rng.choice([1, 2, 4, 6]))]
+                res = mk()
+                real = [apply(res, op, byid) for op in ops]
+                win = py_window(ids, l, o); xs = list(win)
+                exp = [py_apply(xs, op) for op in ops]
+                ctx.case(['qresult', desc_, ops], kind='oracle:query-result-object')
+                if real != exp:
+                    ctx.violation('list-like calls on a query result differ from the same calls on the Python list of its window',
+                                  {'result': desc_, 'calls': ops, 'R': ids, 'window': win}, observed=real, expected=exp, key='qresult:%s:%r:%r' % (form, ops[0][0], lazy))
+                reqs.append({'op': 'qres', 'R': ids, 'l': l, 'o': o, 'lazy': lazy, 'ops': ops}); reals.append(real); metas.append(desc_)
+        db.disconnect()
+    outs = ctx.driver('C24', reqs)
+    for rq, real, out, d in zip(reqs, reals, outs, metas):
+        ctx.case(['qres-tie', d, rq['ops']], kind='query-result-tie')
+        if out != real:
+            ctx.divergence('QueryResult model (Model/QResult.lean) and real Pony disagree', {'result': d, 'R': rq['R'], 'calls': rq['ops']}, model=out, impl=real)
+
 def run(ctx):
     translator_tie(ctx)
-    for part in (aggr_tie, gconcat_tie, method_oracle, extra_oracle):
+    for part in (aggr_tie, gconcat_tie, qresult_tie, method_oracle, extra_oracle):
         try:
             part(ctx)
         except Exception as e:
